@@ -193,6 +193,42 @@ Theorem C09_download_spec : forall cwd rfs lcwd lfs src dst wi t fuel,
 Proof. exact download_spec_full. Qed.
 Print Assumptions C09_download_spec.
 
+(* ---------------------------------------------------------------------------------------------- *)
+(* Sessions: several operations on ONE client, with changes of the working directory between them.
+   The state an operation may depend on is (server-side cwd of the session, remote tree) and nothing else:
+   the model of a session is the fold of the single-operation model over that pair (Model.run_seq), and
+   every operation in it -- whatever preceded it, in particular whichever directory the session was in when
+   the same relative path was used before -- succeeds, moves the cwd as documented (spec_cwd) and leaves
+   visible exactly the documented function (spec_view: mkdir -p / placed / subtree gone / unchanged) of what
+   was visible before.  op_pre are the hypotheses of the single-operation theorems above, taken on the state
+   the operation starts from.  (The code side -- that the real Client keeps no state of its own between
+   operations -- is carried by the session correspondence of harness/props/c09.py.) *)
+Theorem C09_session_step : forall cwd fs o v,
+  op_pre (cwd, fs) o ->
+  (forall q, look fs q = v q) ->
+  exists fs', step repo_upload_fixed (cwd, fs) o = Ok (spec_cwd cwd o, fs') /\
+              forall q, look fs' q = spec_view v cwd o q.
+Proof. exact step_sound. Qed.
+Print Assumptions C09_session_step.
+
+Theorem C09_session_no_hidden_state : forall ops cwd fs v,
+  (forall q, look fs q = v q) ->
+  seq_pre (cwd, fs) ops ->
+  exists fs', run_seq repo_upload_fixed (cwd, fs) ops = Ok (fst (spec_seq cwd v ops), fs') /\
+              forall q, look fs' q = snd (spec_seq cwd v ops) q.
+Proof. exact seq_sound. Qed.
+Print Assumptions C09_session_no_hidden_state.
+
+(* non-vacuity: upload a directory-only tree to the relative destination x, change to w, upload to x again:
+   the hypotheses hold along the way; /x/foo/d and /w/x/foo/d both exist afterwards *)
+Example C09_session_example :
+  let fs := Dir [(n_w, Dir [])] in
+  seq_pre ([], fs) seq_example /\
+  exists fs', run_seq repo_upload_fixed ([], fs) seq_example = Ok ([n_w], fs') /\
+              look fs' [n_x; n_foo; n_d] = Some EDir /\
+              look fs' [n_w; n_x; n_foo; n_d] = Some EDir.
+Proof. exact seq_example_ok. Qed.
+
 (* the fuel the harness interface gives (the node count of the whole file system) is enough for every
    subtree, so none of the walks above ends in OutOfFuel *)
 Theorem C09_fuel_enough : forall fs p t, lookup fs p = Some t -> (tree_size t <= tree_size fs)%nat.
